@@ -43,7 +43,7 @@ SecAuditLogFormat JSON
 	} else {
 		cfg += "SecAuditLogType Concurrent\nSecAuditLog " + auditFile + "\nSecAuditLogStorageDir " + auditDir + "\n"
 	}
-	cfg += `
+	cfg += c06DefaultAction + `
 SecRule ARGS_GET:cx1 "@streq 1" "id:10,phase:1,pass,nolog,ctl:ruleRemoveTargetById=200;ARGS_GET:x1"
 SecRule ARGS_GET:cx2 "@streq 1" "id:11,phase:1,pass,nolog,ctl:ruleRemoveTargetById=200;ARGS_GET:x2"
 SecRule ARGS_GET:cx3 "@streq 1" "id:12,phase:1,pass,nolog,ctl:ruleRemoveTargetById=200;ARGS_GET:/^x3/"
@@ -64,8 +64,15 @@ SecAction "id:230,phase:5,pass,nolog,setvar:tx.done=1"
 	return cfg
 }
 
+// c06DefaultAction: a default action list with actions that keep data (the same line is used by the shared WAF and
+// by configurations the builder goroutines parse meanwhile: whatever a parser keeps per line must not be shared
+// between WAFs)
+const c06DefaultAction = "\nSecDefaultAction \"phase:2,pass,log,setvar:tx.dflt=+1,setvar:tx.dk_%{MATCHED_VAR_NAME}=1\"\n"
+
 // other configurations built and closed by the builder goroutines; they share pattern strings with c06Config.
 var c06BuilderConfigs = []string{
+	c06DefaultAction + `SecRule ARGS "@pm hit miss other" "id:1,phase:2,t:lowercase"
+SecRule ARGS_GET:x1 "@streq hit" "id:2,phase:2,t:trim"`,
 	`SecRule ARGS "@rx ^h(i)t$" "id:1,phase:2,pass,t:lowercase,t:trim"
 SecRule ARGS "@pm hit miss other" "id:2,phase:2,pass,t:trim,t:lowercase"`,
 	`SecRule REQUEST_URI "@restpath /api/{kind}/{id}" "id:1,phase:1,pass"
